@@ -60,3 +60,127 @@ End Vars.
 
 Arguments sval A : clear implicits.
 Arguments bspec A : clear implicits.
+
+(* ================================================================================================================
+   Typed layer: the same code with the numpy dtype of every operand made explicit.
+
+   numpy arrays are (dtype, values).  The dtypes that real-valued design variables, bounds and move limits come in:
+   int32 / int64 / float32 / float64 (np.asarray turns a Python int into int64 and a Python float into float64).
+   `conv a b x` stands for ndarray.astype: the value x held in dtype a stored into dtype b (a library call, kept
+   abstract; for the evaluation over Q see Model/MMAcorr.v).  Definitions only. *)
+Inductive dtype := I32 | I64 | F32 | F64.
+
+(* np.promote_types restricted to these four dtypes *)
+Definition promote (a b : dtype) : dtype :=
+  match a, b with
+  | F64, _ | _, F64 => F64
+  | F32, F32 => F32
+  | F32, _ | _, F32 => F64                  (* int32 / int64 with float32 -> float64 *)
+  | I64, _ | _, I64 => I64
+  | I32, I32 => I32
+  end.
+
+(* cumulative_inds[k] = x   (k in range; out of range: IndexError, the list is returned unchanged) *)
+Fixpoint set_at (l : list nat) (k x : nat) : list nat :=
+  match l, k with
+  | [], _ => []
+  | _ :: t, 0 => x :: t
+  | h :: t, S k' => h :: set_at t k' x
+  end.
+
+Section Typed.
+  Context {A : Type}.
+  Variable d : A.
+  Variable conv : dtype -> dtype -> A -> A.
+
+  Definition tarr := (dtype * list A)%type.
+  (* the state of a Signal: None, or a scalar / 1-D array of some dtype *)
+  Inductive tstate := TNone | TVal (dt : dtype) (v : sval A).
+
+  (* np.array([]) *)
+  Definition np_empty : tarr := (F64, []).
+  (* np.zeros(k, dtype=int) *)
+  Definition np_zeros_int (k : nat) : list nat := repeat 0 k.
+  (* np.append(values, v) = np.concatenate((ravel(values), ravel(v))): common dtype, both operands converted *)
+  Definition np_append (values : tarr) (dt : dtype) (v : sval A) : tarr :=
+    let r := promote (fst values) dt in
+    (r, map (conv (fst values) r) (snd values) ++ map (conv dt r) (flat v)).
+
+  (* ---- _concatenate_to_array as written:
+         values = np.array([]);  cumulative_inds = np.zeros(len(var_list)+1, dtype=int)
+         for i, v in enumerate(var_list):
+             if v is None: raise ValueError
+             values = np.append(values, v);  cumulative_inds[i+1] = len(values)                  (None = ValueError) *)
+  Definition concat_init (nvars : nat) : tarr * list nat := (np_empty, np_zeros_int (S nvars)).
+  Definition concat_body (i : nat) (dt : dtype) (v : sval A) (st : tarr * list nat) : tarr * list nat :=
+    let values := np_append (fst st) dt v in
+    (values, set_at (snd st) (S i) (length (snd values))).
+  Fixpoint concat_loop (i : nat) (vs : list tstate) (st : tarr * list nat) : option (tarr * list nat) :=
+    match vs with
+    | [] => Some st
+    | TNone :: _ => None
+    | TVal dt v :: r => concat_loop (S i) r (concat_body i dt v st)
+    end.
+  Definition concat_to_array_t (vs : list tstate) : option (tarr * list nat) :=
+    concat_loop 0 vs (concat_init (length vs)).
+
+  (* ---- _split_from_array as written, in pieces *)
+  Definition split_assert (vals : list A) (cum : list nat) : bool := last cum 0 =? length vals.
+  Definition split_count (cum : list nat) : nat := length cum - 1.
+  Definition split_item (vals : list A) (cum : list nat) (i : nat) : list A := slice vals (nth i cum 0) (nth (S i) cum 0).
+
+  (* ---- bound expansion of MMA.response with dtypes *)
+  (* a bound / move-limit specification: a scalar of some dtype, or a sequence whose entries have some dtype *)
+  Inductive tbspec := TBScal (dt : dtype) (a : A) | TBList (dt : dtype) (l : list A).
+
+  (* np.zeros_like(xval): the dtype of xval *)
+  Definition zeros_like (zero : A) (x : tarr) : tarr := (fst x, repeat zero (length (snd x))).
+  (* b * np.ones_like(xval) for a scalar b
+     (a Python scalar is weakly typed in numpy >= 2; this only matters when xval is not float64, which
+      MMAvarsP.concat_t_dtype excludes) *)
+  Definition scal_times_ones_like (sdt : dtype) (a : A) (x : tarr) : tarr :=
+    let r := promote sdt (fst x) in (r, repeat (conv sdt r a) (length (snd x))).
+  (* dst[a:b] = v : the value is stored in the dtype of dst *)
+  Definition assign_range_t (dst : tarr) (a b : nat) (sdt : dtype) (v : A) : tarr :=
+    (fst dst, assign_range (snd dst) a b (conv sdt (fst dst) v)).
+  (* new = np.zeros_like(xval); for i in range(len(vals)): new[cum[i]:cum[i+1]] = vals[i] *)
+  Definition fill_ranges_t (zero : A) (xval : tarr) (cum : list nat) (sdt : dtype) (vals : list A) : tarr :=
+    fold_left (fun acc i => assign_range_t acc (nth i cum 0) (nth (S i) cum 0) sdt (nth i vals d))
+              (seq 0 (length vals)) (zeros_like zero xval).
+  (* xmin / xmax:
+       if not hasattr(b, '__len__'): b = b * np.ones_like(xval)
+       elif len(b) == len(variables): per-signal expansion into np.zeros_like(xval)
+       if len(b) != n: raise RuntimeError                 (a per-variable sequence is kept as it was given) *)
+  Definition expand_bound_t (zero : A) (xval : tarr) (nvars : nat) (cum : list nat) (b : tbspec) : option tarr :=
+    match b with
+    | TBScal sdt a => Some (scal_times_ones_like sdt a xval)
+    | TBList sdt l =>
+        let l' := if length l =? nvars then fill_ranges_t zero xval cum sdt l else (sdt, l) in
+        if length (snd l') =? length (snd xval) then Some l' else None
+    end.
+  (* move: a scalar stays a scalar (broadcast later); a sequence goes through np.asarray first *)
+  Definition expand_move_t (zero : A) (xval : tarr) (nvars : nat) (cum : list nat) (b : tbspec) : option tarr :=
+    match b with
+    | TBScal sdt a => Some (sdt, repeat a (length (snd xval)))
+    | TBList sdt l =>
+        if length l =? nvars then Some (fill_ranges_t zero xval cum sdt l)
+        else if length l =? length (snd xval) then Some (sdt, l) else None
+    end.
+
+  (* the write-back loop: every state is an element / a slice of xval, hence of its dtype *)
+  Definition writeback_t (xval : tarr) (cum : list nat) (nvars : nat) : list tstate :=
+    map (TVal (fst xval)) (writeback d (snd xval) cum nvars).
+
+  (* forgetting the dtypes: each state converted to float64 once *)
+  Definition untag (s : tstate) : sval A :=
+    match s with
+    | TNone => Arr []
+    | TVal dt (Scal a) => Scal (conv dt F64 a)
+    | TVal dt (Arr l) => Arr (map (conv dt F64) l)
+    end.
+  Definition is_tnone (s : tstate) : bool := match s with TNone => true | _ => false end.
+End Typed.
+
+Arguments tstate A : clear implicits.
+Arguments tbspec A : clear implicits.
+Arguments tarr A : clear implicits.
